@@ -2,6 +2,8 @@ package main
 
 import (
 	"fmt"
+	"math"
+	"math/big"
 	"sort"
 	"strings"
 
@@ -17,6 +19,7 @@ type Doc struct {
 	RID uint64 `json:"rid"`
 	K   string `json:"k"`
 	G   string `json:"g,omitempty"`
+	V   *int64 `json:"v,omitempty"` // value of the numeric field v (nil = the document has no field v)
 }
 
 // Params is a search request. A document matches when (K in Match) != Not.
@@ -68,6 +71,15 @@ type Spec struct {
 	Shards  [][][][]Doc `json:"shards,omitempty"`
 	RSealed [][][]bool  `json:"rsealed,omitempty"`
 	Fail    []int       `json:"fail,omitempty"`
+	// aggreal / aggproxy: the aggregation function of the request (seq.AggFuncSum, Min, Max, Avg) with
+	// Field v and GroupBy g
+	Func int `json:"func,omitempty"`
+	// proxydocs: Ingestor.Search with ShouldFetch; Shuffle = ShuffleReplicas; Down[s][r] = replica r of shard s
+	// refuses the search; Perm[s] = the order in which searchShard has to ask the replicas of shard s (the
+	// driver repeats the request until util.IdxShuffle draws it; nil without Shuffle)
+	Shuffle bool     `json:"shuffle,omitempty"`
+	Down    [][]bool `json:"down,omitempty"`
+	Perm    [][]int  `json:"perm,omitempty"`
 }
 
 var kVals = []string{"a", "b", "c"}
@@ -266,3 +278,102 @@ func coqNats(xs []int) string {
 	}
 	return "[" + strings.Join(parts, "; ") + "]%nat"
 }
+
+// ---------------------------------------------------------------- field aggregations
+
+// scObs is the mergeable state of one bin (seq.SamplesContainer without the samples), exact integers.
+type scObs struct {
+	K     uint64 `json:"k"` // group value index (gIndex)
+	Total uint64 `json:"total"`
+	NE    uint64 `json:"ne"`
+	Sum   string `json:"sum"`
+	Min   string `json:"min"`
+	Max   string `json:"max"`
+}
+
+// faggObs is the canonical observation of QPR.Aggs[0] of a field aggregation: bins sorted by key.
+type faggObs struct {
+	Bins []scObs `json:"bins"`
+	NE   uint64  `json:"ne"`
+}
+
+func floatZ(f float64) (string, error) {
+	if math.IsNaN(f) || math.IsInf(f, 0) || f != math.Trunc(f) {
+		return "", fmt.Errorf("value %v is not an integer", f)
+	}
+	i, _ := big.NewFloat(f).Int(nil)
+	return i.String(), nil
+}
+
+func observeFagg(q *seq.QPR) (*faggObs, error) {
+	if len(q.Aggs) != 1 {
+		return nil, fmt.Errorf("%d aggregations", len(q.Aggs))
+	}
+	a := q.Aggs[0]
+	if a.NotExists < 0 {
+		return nil, fmt.Errorf("negative NotExists")
+	}
+	o := &faggObs{NE: uint64(a.NotExists), Bins: []scObs{}}
+	for bin, sc := range a.SamplesByBin {
+		k, ok := gIndex(bin.Token)
+		if !ok || k == 0 || bin.MID != 0 || sc == nil || sc.Total < 0 || sc.NotExists < 0 {
+			return nil, fmt.Errorf("unexpected aggregation bin %q mid=%d", bin.Token, bin.MID)
+		}
+		b := scObs{K: k, Total: uint64(sc.Total), NE: uint64(sc.NotExists)}
+		var e1, e2, e3 error
+		b.Sum, e1 = floatZ(sc.Sum)
+		b.Min, e2 = floatZ(sc.Min)
+		b.Max, e3 = floatZ(sc.Max)
+		for _, e := range []error{e1, e2, e3} {
+			if e != nil {
+				return nil, fmt.Errorf("bin %q: %v", bin.Token, e)
+			}
+		}
+		o.Bins = append(o.Bins, b)
+	}
+	sort.Slice(o.Bins, func(i, j int) bool { return o.Bins[i].K < o.Bins[j].K })
+	return o, nil
+}
+
+func (o *faggObs) coq() string {
+	parts := make([]string, len(o.Bins))
+	for i, b := range o.Bins {
+		parts[i] = fmt.Sprintf("(%d, mkSC %d %d (%s)%%Z (%s)%%Z (%s)%%Z)", b.K, b.Total, b.NE, b.Sum, b.Min, b.Max)
+	}
+	return fmt.Sprintf("(mkFA [%s] %d)", strings.Join(parts, "; "), o.NE)
+}
+
+func coqADoc(d Doc, p *Params) string {
+	v := "None"
+	if d.V != nil {
+		v = fmt.Sprintf("(Some (%d)%%Z)", *d.V)
+	}
+	return fmt.Sprintf("mkA (%s) %s", coqDoc(d, p), v)
+}
+
+func coqALayout(l [][]Doc, p *Params) string {
+	parts := make([]string, len(l))
+	for i, f := range l {
+		ds := make([]string, len(f))
+		for j, d := range f {
+			ds[j] = coqADoc(d, p)
+		}
+		parts[i] = "[" + strings.Join(ds, "; ") + "]"
+	}
+	return "[" + strings.Join(parts, ";\n     ") + "]"
+}
+
+// docBody is the stored body of a document; the field i makes it unique per ID.
+func docBody(d Doc) []byte {
+	b := fmt.Sprintf(`{"k":%q`, d.K)
+	if d.G != "" {
+		b += fmt.Sprintf(`,"g":%q`, d.G)
+	}
+	if d.V != nil {
+		b += fmt.Sprintf(`,"v":"%d"`, *d.V)
+	}
+	return []byte(b + fmt.Sprintf(`,"i":"%d.%d"}`, d.MID, d.RID))
+}
+
+// bodyCode numbers a body for the model: mid*10+rid of the document it belongs to.
+func bodyCode(d Doc) uint64 { return d.MID*10 + d.RID }
